@@ -44,7 +44,7 @@ func WarpTargetFullType(targetType string) (string, string) {
 
 	if pureTargetType != "" {
 		for _, imp := range imports {
-			if strings.HasSuffix(imp, pureTargetType) {
+			if strings.HasSuffix(imp, "."+pureTargetType) {
 				callType = "chain"
 				return imp, callType
 			}
